@@ -1,4 +1,5 @@
 import StorageModel.C09.Spec
+import StorageModel.C09.Layered
 /-
   The concrete schema (`uniSchema`) the C09 harness wires through the exported API (harness/c09_store.go), and
   helpers to build concrete states.  The theorems are schema-generic; this file is used by the
@@ -9,6 +10,13 @@ open StorageModel
 
 def things : Name := "things"
 def owners : Name := "owners"
+/-- EXTENDED child store of `things` (data bucket `ext` inside the thing's entity bucket) -/
+def thingsX : Name := "things_x"
+/-- PLAIN child store of `things` (data bucket `pl`) -/
+def thingsP : Name := "things_p"
+
+/-- the layering of the harness stores -/
+def uniLayering : Layering := [⟨thingsX, things, true⟩, ⟨thingsP, things, false⟩]
 
 /-- registration order = order of `BaseStore.CheckIntegrity`'s fan-out -/
 def uniSchema : Schema :=
@@ -24,6 +32,21 @@ def uniSchema : Schema :=
           .fkCons things "req" false owners,
           .fkIndex things "boss" true things "minions",
           .noop ] },
+    -- the child stores carry their own constraints on their own fields; their index buckets live under
+    -- the PARENT's entity type (`indexes/things/<field>`), the model names them by the child store
+    { name := thingsX
+      links := []
+      constraints :=
+        [ .unique thingsX "badge" false,
+          .unique thingsX "tag" true,
+          .setIdx thingsX "caps",
+          .fkCons thingsX "sponsor" false owners ] },
+    { name := thingsP
+      links := []
+      constraints :=
+        [ .unique thingsP "code" false,
+          .unique thingsP "nick" true,
+          .setIdx thingsP "marks" ] },
     { name := owners
       links := [⟨owners, "members", things, "groups"⟩]
       constraints :=
@@ -32,15 +55,21 @@ def uniSchema : Schema :=
 
 def scalarsOf (st : Name) : List Name :=
   if st = things then ["name", "alias", "owner", "home", "dep", "req", "boss"]
-  else if st = owners then ["label"] else []
+  else if st = owners then ["label"]
+  else if st = thingsX then ["badge", "tag", "sponsor"]
+  else if st = thingsP then ["code", "nick"] else []
 
 def setsOf (st : Name) : List Name :=
   if st = things then ["roles", "groups", "minions"]
-  else if st = owners then ["things", "residents", "members"] else []
+  else if st = owners then ["things", "residents", "members"]
+  else if st = thingsX then ["caps"]
+  else if st = thingsP then ["marks"] else []
 
-def storeOrder : List Name := [things, owners]
-def uniqueIdxs : List (Name × Name) := [(things, "name"), (things, "alias"), (owners, "label")]
-def setIdxs : List (Name × Name) := [(things, "roles")]
+def storeOrder : List Name := [things, thingsX, thingsP, owners]
+def uniqueIdxs : List (Name × Name) :=
+  [(things, "name"), (things, "alias"), (thingsX, "badge"), (thingsX, "tag"), (thingsP, "code"), (thingsP, "nick"),
+   (owners, "label")]
+def setIdxs : List (Name × Name) := [(things, "roles"), (thingsX, "caps"), (thingsP, "marks")]
 
 def assoc {V : Type} (d : V) (l : List (Name × V)) (k : Name) : V :=
   match l with
@@ -77,6 +106,21 @@ def EntD.toEnt (d : EntD) : Id × Ent := (d.id, mkEnt d.fields d.sets)
 
 def StD.toSt (d : StD) : St :=
   mkSt (d.ents.map fun p => (p.1, p.2.map EntD.toEnt)) d.uniq d.setx
+
+/-- the physical, layered database of a description: the records of a child store become the nested
+    data buckets of the parent's entities -/
+def StD.toPSt (L : Layering) (d : StD) : PSt :=
+  { ents := fun r => (assoc [] d.ents r).map fun e =>
+      (e.id,
+        { own := mkEnt e.fields e.sets
+          child := fun c =>
+            match L.decl c with
+            | some dc =>
+              if dc.parent = r then ((assoc [] d.ents c).find? fun ce => ce.id = e.id).map fun ce => mkEnt ce.fields ce.sets
+              else none
+            | none => none })
+    uniq := assoc2 [] d.uniq
+    setx := assoc2 [] d.setx }
 
 def nodupKeysB {V : Type} (l : List (Bytes × V)) : Bool := decide (l.map (·.1)).Nodup
 
